@@ -25,6 +25,11 @@ func (n *RawNode) RPCCall(ctx context.Context, d CallData) (protoreflect.ProtoMe
 
 	select {
 	case r := <-replyChan:
+		if r.err != nil && ctx.Err() != nil {
+			// Ending the context cancels the stream, which fails the pending calls on the
+			// node; for the call whose context ended, report the context's error.
+			return nil, ctx.Err()
+		}
 		return r.msg, r.err
 	case <-ctx.Done():
 		return nil, ctx.Err()
